@@ -132,6 +132,7 @@ class Obs:
         self.failed_asserts = [l for l in self.lines if l.startswith('assert-failed')]
         self.early_diff = [l for l in self.lines if l.startswith('early ') and ' differs ' in l]
         self.linkage_values = [l for l in self.lines if l.startswith('linkage-values-disagree ')]
+        self.shutdown = [l for l in self.lines if l.startswith('shutdown-audit ')]
         self.early_checked = next((int(l.split('checked=')[1].split()[0]) for l in self.lines if l.startswith('early-constants ')), 0)
         for ln in self.lines:
             f = ln.split()
@@ -385,7 +386,10 @@ def run(tier):
     else:
         for ln in o.failed_asserts[:3]:
             w = ln.split()
-            if w[1].startswith('identifier-of'):
+            if w[1].startswith('route-'):
+                res.violation('route:' + w[1][6:], 'the route %s answers ANOTHER node for the spelling `%s` than the same request made on the Lexicon '
+                              'itself (each of these spellings denotes one node by every route)' % (w[1][6:].replace('-', ' '), unhex(w[3])), '# %s\n' % ln + script)
+            elif w[1].startswith('identifier-of'):
                 res.violation('route:' + w[1], 'get_identifier(String) answers one node for the pool\'s String spelled `%s` and another for a String node with '
                               'the same characters made by the client' % unhex(w[3]), '# %s\n' % ln + script)
             else:
@@ -396,6 +400,15 @@ def run(tier):
             res.violation('linkage:values', 'as values, the linkages spelled `%s` and `%s` compare %s: linkages are equal exactly when spelled the same '
                           '(the two standard ones are distinct, and a built-in type has the C++ one)' % (unhex(w[2].strip('`')), unhex(w[4].strip('`')), w[3]),
                           '# %s\n' % ln + script)
+        for ln in o.shutdown[:1]:
+            kv = dict(x.split('=', 1) for x in ln.split()[1:])
+            if kv.get('failed') != '0':
+                res.violation('shutdown:' + kv.get('first', '?'), 'after main() has returned, the destructor of a client object with static storage duration (constructed '
+                              'before main, owning its own Lexicon) asked for the type / label / linkage denoted by each reserved spelling: %s of %s answers were not '
+                              'the constants (first: %s) -- the constants are process-wide for the whole life of the process' % (kv.get('failed'), kv.get('checked'), kv.get('first')),
+                              '# shutdown-audit: run the probe with any op script and read its last line\n# %s\n' % ln)
+        if not o.shutdown and o.rc == 0:
+            res.violation('shutdown:missing', 'the probe ended without its shutdown audit line', '# shutdown-audit missing\n')
         for ln in o.early_diff[:4]:
             what = ln.split()[1]
             res.violation('static-init:' + what, 'the constant `%s()` answered by a Lexicon that a client translation unit (linked before the library) uses during '
